@@ -308,6 +308,15 @@ func c08Check(st *msState, s *vsched.Sched, tr *vsched.Trace) (string, []vsched.
 				// parameter set is complete (C02): only its integrity is checked below
 				key = fmt.Sprintf("%s#%x", key, l.Body)
 			}
+			// the resource as it is now (all threads have ended): the bytes a download received while the writer was
+			// running are the bytes of that resource
+			if !st.closed {
+				if rr := muxGet(st.mi.m, l.URL); rr.Status == 200 && rr.Body.Len() > 0 && !(strings.HasSuffix(path, "_init.mp4") && st.sc.Params != 0) {
+					if _, ok := bodies[key]; !ok {
+						bodies[key] = rr.Body.Bytes()
+					}
+				}
+			}
 			if old, ok := bodies[key]; ok && !bytes.Equal(old, l.Body) {
 				add("media-bytes-changed", fmt.Sprintf("%s returned %d bytes to one request and %d different bytes to another", key, len(old), len(l.Body)))
 			}
@@ -495,6 +504,12 @@ func c05InflightScens(tier string) []msScen {
 					out = append(out, msScen{Prop: "C05", Cfg: b.cfg, Warm: warm, Writes: writes, Reqs: [][]string{s}, Bound: bound, Shards: 1})
 				}
 			}
+		}
+	}
+	// two overlapping downloads of parts of one finalised segment, bodies that take several Writes (> 32 KiB)
+	for _, cfg := range []muxCfg{cfgLLDisk, cfgLL} {
+		for _, reqs := range [][][]string{{{"PARTA"}, {"PARTB"}}, {{"PARTA"}, {"SEG"}}, {{"PARTB"}, {"PARTA"}}} {
+			out = append(out, msScen{Prop: "C05", Cfg: cfg, Warm: 9, Writes: 1, Big: 20000, Reqs: reqs, Bound: 2, Shards: 1})
 		}
 	}
 	return out
